@@ -502,6 +502,9 @@ func cout(val, err string, evs []string, ids []string, created int) string {
 
 // step answers one request in the driver's format.
 func (o *oracle) step(op Op) string {
+	if op.Site != "" {
+		return o.stepNested(op)
+	}
 	op = resolve(op) // options are applied in order; the one-step description works on the resolved list
 	switch op.Op {
 	case "get":
